@@ -3,8 +3,13 @@
 Property (properties.jsonl, C17), clause by clause, and what this oracle demands for each:
 
  N  "For any input whatsoever the only outcomes are a result or that error type, never an internal exception":
-      every converted case (harvested forms, generated forms, the vocabulary family, the fuzzed family and all
-      mutation cases) either converts or raises PyXFormError.        key  C17:internal-error:<Type>:<file>:<func>
+      every converted case (harvested forms, generated forms, the vocabulary family, the header structure and
+      vocabulary family, the fuzzed family and all mutation cases) either converts or raises PyXFormError.
+                                                                     key  C17:internal-error:<Type>:<file>:<func>
+      header_cases() varies the HEADERS (the other families keep them fixed): every documented column of every sheet
+      with 0-3 extra parts joined by `::` / `:`, empty parts, language parts; and headers that are Python-level names
+      of the implementation (slots, constructor arguments, methods, dunder / underscore / dotted names); as an extra
+      column (cell filled, once empty) or in place of the base column, on small valid forms of every kind of row.
  R  "A form containing a structural error (...) is refused: conversion raises the library's own error type ...
       and returns no XForm": every catalogued breaking mutation applied to a valid base form, at every site where
       it applies, must be refused.                                    key  C17:accepted:<kind>
@@ -799,9 +804,354 @@ def context_cases(tier: str, seed: int) -> list[Case]:
     return out
 
 
+# ----------------------------------------------------------------------------- header structure and vocabulary (clause N)
+# "For any input whatsoever the only outcomes are a result or that error type": every family above keeps the HEADERS of
+# the sheets fixed and varies the cells.  This family varies the structure and the vocabulary of one column header of
+# one sheet at a time, on forms that are otherwise small valid forms of the sheet's kind:
+#   * every documented column of the sheet with 0-3 extra parts joined by `::` and by `:`, with empty parts (`label::`,
+#     `::label`, `label::::en`), with a language part and with a second language column;
+#   * headers that are Python-level names of the implementation and not columns (slot names of the element classes,
+#     constructor argument names, method names, dunder-like and underscore-prefixed names, names with a dot).
+# The header is an EXTRA column (cell filled with plain text on the target rows; once with no cell filled), or it REPLACES
+# the base column of the same name (keeping that column's cells).  The only demand is clause N (no `expect` but on the
+# base forms, which are valid by construction and must be accepted).  Forms are handed over as Markdown text, so every
+# header/cell reaches the converter the way a spreadsheet reader delivers it.
+#
+# The column lists are DATA for generating inputs: the XLSForm reference tables plus the spellings pyxform knows
+# (constants.py, aliases.py *_header, the header_columns / headers_parts tables of xls2json.workbook_to_json).
+
+HDR_TEXT = "v"
+HDR_COLUMNS = {
+    "survey": [
+        "type", "name", "label", "hint", "guidance_hint", "appearance", "required", "required_message", "relevant",
+        "constraint", "constraint_message", "calculation", "default", "read_only", "readonly", "trigger", "choice_filter",
+        "parameters", "repeat_count", "image", "big-image", "audio", "video", "autoplay", "rows", "save_to", "sms_field",
+        "sms_option", "sms_separator", "sms_allow_media", "sms_date_format", "sms_datetime_format", "sms_response",
+        "compact_tag", "query", "disabled", "count", "jr:count", "caption", "command", "tag", "value", "relevance",
+        "calculate", "constraining_message", "noapperrorstring", "no_app_error_string", "requiredmsg", "media", "bind",
+        "body", "control", "instance", "list_name", "constraint message", "required message",
+        "media::image", "media::audio", "media::video", "media::big-image", "bind::type", "bind::relevant",
+        "bind::jr:constraintMsg", "bind::jr:requiredMsg", "bind::jr:noAppErrorString", "bind::foo", "bind::nodeset",
+        "body::accuracyThreshold", "body::intent", "body::appearance", "body::jr:count", "body::tag", "body::nodeset",
+        "control::appearance", "instance::odk:tag", "instance::foo",
+    ],
+    "choices": ["list_name", "list name", "name", "label", "image", "big-image", "audio", "video", "media", "media::image",
+                "media::audio", "caption", "value", "sms_option", "geometry", "state"],
+    "settings": ["form_title", "form_id", "version", "default_language", "public_key", "submission_url", "instance_name",
+                 "instance_xmlns", "style", "namespaces", "name", "allow_choice_duplicates", "auto_send", "auto_delete",
+                 "attribute", "attribute::foo", "sms_keyword", "sms_separator", "sms_allow_media", "sms_date_format",
+                 "sms_datetime_format", "sms_response", "prefix", "delimiter", "clean_text_values", "add_none_option",
+                 "omit_instanceID", "id_string", "title", "set_form_id", "set_form_title"],
+    "entities": ["list_name", "dataset", "label", "entity_id", "create_if", "update_if", "repeat", "name", "type",
+                 "parameters"],
+    "external_choices": ["list_name", "list name", "name", "label", "state", "caption", "value", "image", "media::image"],
+    "osm": ["list_name", "list name", "name", "label", "caption", "value", "image", "media::image", "state"],
+}
+# Python-level names (not columns of any sheet; a few coincide with a column and are then simply probed twice)
+HDR_PY_NAMES = [
+    # slots: SURVEY_ELEMENT_FIELDS / *_EXTRA_FIELDS of survey_element.py, question.py, section.py, survey.py, entities
+    "parent", "extra_data", "_survey_element_xpath", "_qtd_defaults", "_qtd_kwargs", "action", "query", "trigger", "bind",
+    "control", "media", "instance", "choices", "itemset", "children", "_choice_itext_ref", "flat", "_created",
+    "_translations", "_xpath", "attribute", "entity_features", "setgeopoint_by_triggering_ref",
+    "setvalues_by_triggering_ref", "file_name", "id_string", "title", "options", "requires_itext", "used_by_search",
+    # constructor / builder argument names and keys of the JSON form
+    "fields", "kwargs", "self", "cls", "args", "question_type_dictionary", "tags", "columns", "sections", "survey",
+    "question", "choice", "group", "repeat", "loop", "meta", "entity", "list name", "sms_keyword",
+    # attribute and method names of the element classes and of the Mapping protocol
+    "xml", "validate", "keys", "items", "values", "get", "to_json_dict", "iter_descendants", "get_xpath", "build_xml",
+    "xml_control", "xml_instance", "xml_bindings", "get_slot_names", "any_repeat",
+    # dunder-like and underscore-prefixed
+    "__row", "__init__", "__class__", "__dict__", "__slots__", "__name__", "__setattr__", "__getitem__", "__len__", "__doc__",
+    "_", "__", "_name", "_label", "_type", "_x", "_header", "_row",
+    # with a dot
+    "a.b", "label.en", "self.name", "bind.type", "survey.children", "x.", ".x", "a..b",
+]
+
+
+def _hdr_introspected():
+    """Names the implementation itself declares (slots, constructor arguments), so that a field added later is probed
+    without editing this file.  Input generation only; nothing is expected of these names."""
+    names = set()
+    try:
+        import importlib
+        import inspect
+
+        for mod in ("pyxform.survey_element", "pyxform.question", "pyxform.section", "pyxform.survey",
+                    "pyxform.entities.entity_declaration", "pyxform.external_instance"):
+            m = importlib.import_module(mod)
+            for _, cls in sorted(vars(m).items()):
+                if not inspect.isclass(cls) or not getattr(cls, "__module__", "").startswith("pyxform"):
+                    continue
+                for k in cls.__mro__:
+                    if not k.__module__.startswith("pyxform"):
+                        continue
+                    s = k.__dict__.get("__slots__", ())
+                    names.update([s] if isinstance(s, str) else s)
+                if hasattr(cls, "get_slot_names"):
+                    names.update(cls.get_slot_names())
+                try:
+                    names.update(inspect.signature(cls.__init__).parameters)
+                except (TypeError, ValueError):
+                    pass
+    except Exception:  # noqa: BLE001  (a tree that cannot be introspected: the static list stands)
+        return []
+    return sorted(n for n in names if isinstance(n, str) and n and n == n.strip() and "|" not in n)
+
+
+def _hdr_shapes(col, thorough, wide=True):
+    """[(tag, [headers])]: `col` alone, with 1-3 extra parts joined by '::' and by ':', with empty parts, with languages.
+    thorough: more kinds of parts (a media type, a bind attribute, a prefixed attribute, the default-language key ...);
+    wide=False keeps the language parts only (used for the Python-level names)."""
+    out = [("plain", [col])]
+    chains = [("en", "fr", "x")]
+    if thorough and wide:
+        chains += [("English (en)", "French (fr)"), ("image", "en"), ("type", "en"), ("jr:constraintMsg", "en"), ("foo", "bar"),
+                   ("default", "en"), ("appearance", "en")]
+    for ch in chains:
+        for d in ("::", ":"):
+            for n in range(1, len(ch) + 1):
+                out.append((f"+{n}x{d}{ch[0]}", [col + d + d.join(ch[:n])]))
+    empties = [col + "::", "::" + col, col + "::::en"]
+    if thorough:
+        empties += [col + ":", ":" + col, col + "::en::", "::" + col + "::en", col + "::::", col + ":::en", "::::" + col]
+    out += [("empty-part", [h]) for h in empties]
+    langs = [[col + "::en", col + "::fr"]]
+    if thorough:
+        langs += [[col + ":en", col + ":fr"], [col, col + "::en"], [col + "::en", col], [col + "::en", col + "::fr", col + "::de"],
+                  [col + "::English (en)", col + "::French (fr)"], [col + "::en", col + ":fr"]]
+    out += [("languages", hs) for hs in langs]
+    return out
+
+
+def _hdr_survey_kinds(thorough):
+    """kind -> rows (type, name, label) of a target question or section; the FIRST row of each is the target row."""
+    kinds = {
+        "text": [("text", "q", "Q")],
+        "select_one": [("select_one l", "q", "Q")],
+        "select_multiple": [("select_multiple l", "q", "Q")],
+        "osm": [("osm o", "q", "Q")],
+        "osm-no-tags": [("osm", "q", "Q")],
+        "background-audio": [("background-audio", "q", None)],
+        "range": [("range", "q", "Q")],
+        "group": [("begin group", "q", "Q"), ("text", "i", "I"), ("end group", None, None)],
+        "repeat": [("begin repeat", "q", "Q"), ("text", "i", "I"), ("end repeat", None, None)],
+    }
+    if thorough:
+        kinds.update({
+            "integer": [("integer", "q", "Q")], "note": [("note", "q", "Q")], "rank": [("rank l", "q", "Q")],
+            "select_one_from_file": [("select_one_from_file f.csv", "q", "Q")], "image": [("image", "q", "Q")],
+            "geopoint": [("geopoint", "q", "Q")], "audit": [("audit", "audit", None)], "hidden": [("hidden", "q", None)],
+            "start": [("start", "q", None)], "xml-external": [("xml-external", "q", None)],
+            "or_other": [("select_one l or_other", "q", "Q")], "trigger": [("acknowledge", "q", "Q")],
+            "loop": [("begin loop over l", "q", "Q"), ("text", "i", "I"), ("end loop", None, None)],
+        })
+    return kinds
+
+
+HDR_CHOICES = (["list_name", "name", "label"], [["l", "x", "X"], ["l", "y", "Y"]])
+HDR_OSM = (["list_name", "name", "label"], [["o", "building", "Building"], ["o", "highway", "Highway"]])
+HDR_EXT = (["list_name", "name", "label", "state"], [["ext", "z", "Z", "s1"], ["ext", "w", "W", "s2"]])
+
+
+def _hdr_lang(wb, sheets):
+    """The same workbook with `label` spelt `label::en` on the given sheets (so another header of the sheet has '::')."""
+    out = wb.copy()
+    for s in sheets:
+        h, rows = out[s]
+        out[s] = (["label::en" if x == "label" else x for x in h], rows)
+    return out
+
+
+def _hdr_survey_wb(rows, extra=None):
+    wb = WB()
+    wb["survey"] = (["type", "name", "label"], [list(r) for r in rows])
+    words = [str(r[0]).split() for r in rows]
+    if any("l" in w[1:] for w in words):                      # select_one l, rank l, begin loop over l, ...
+        wb["choices"] = (list(HDR_CHOICES[0]), [list(r) for r in HDR_CHOICES[1]])
+    if ["osm", "o"] in words:
+        wb["osm"] = (list(HDR_OSM[0]), [list(r) for r in HDR_OSM[1]])
+    for k, v in (extra or {}).items():
+        wb[k] = (list(v[0]), [list(r) for r in v[1]])
+    return wb
+
+
+def _hdr_frames(thorough):
+    """sheet -> [(kind, valid workbook, indices of the target rows on that sheet)]; the first frame of a sheet is the
+    one used for the empty-cell cases, `all` (survey) fills the cell on one row of every kind at once."""
+    A = ("text", "a", "A")
+    frames = {s: [] for s in HDR_COLUMNS}
+    kinds = _hdr_survey_kinds(thorough)
+    for kind, rows in kinds.items():
+        frames["survey"].append((kind, _hdr_survey_wb([A, *rows]), [1]))
+    rows, targets = [A], []
+    for n, (kind, krows) in enumerate(kinds.items()):
+        if kind in ("audit",):
+            continue
+        targets.append(len(rows))
+        rows += [(t, (f"{nm}{n}" if nm else nm), lb) for t, nm, lb in krows]
+    frames["survey"].append(("all", _hdr_survey_wb(rows), targets))
+    tr = _hdr_survey_wb([A, ("select_one l", "q", "Q"), ("begin repeat", "r", "R"), ("text", "i", "I"), ("end repeat", None, None)])
+    frames["survey"].append(("translated", _hdr_lang(tr, ["survey", "choices"]), [1, 2]))
+    in_loop = [A, ("begin loop over l", "g", "G"), ("text", "q", "Q"), ("end loop", None, None)]
+    frames["survey"].append(("in-loop", _hdr_survey_wb(in_loop), [2]))
+    if thorough:
+        nested = [A, ("begin group", "g", "G"), ("begin repeat", "r", "R"), ("text", "q", "Q"), ("end repeat", None, None),
+                  ("end group", None, None)]
+        frames["survey"].append(("inner", _hdr_survey_wb(nested), [3]))
+        frames["survey"].append(("end-row", _hdr_survey_wb(nested), [4, 5]))
+
+    sel = {"select_one": "select_one l", "select_multiple": "select_multiple l", "rank": "rank l", "or_other": "select_one l or_other"}
+    for kind, t in sel.items():
+        frames["choices"].append((kind, _hdr_survey_wb([A, (t, "q", "Q")]), [0, 1]))
+    wb = _hdr_survey_wb([A, ("select_one l", "q", "Q")])
+    wb["survey"] = (["type", "name", "label", "choice_filter"], [["text", "a", "A", None], ["select_one l", "q", "Q", "name != ${a}"]])
+    frames["choices"].append(("filtered", wb, [0, 1]))
+    frames["choices"].append(("translated", _hdr_lang(_hdr_survey_wb([A, ("select_multiple l", "q", "Q")]), ["survey", "choices"]), [0, 1]))
+    if thorough:
+        frames["choices"].append(("first-row-only", _hdr_survey_wb([A, ("select_one l", "q", "Q")]), [0]))
+        frames["choices"].append(("two-questions", _hdr_survey_wb([A, ("select_one l", "q", "Q"), ("select_multiple l", "q2", "Q2")]), [1]))
+
+    forms = {
+        "text": _hdr_survey_wb([A]),
+        "reference": _hdr_survey_wb([A, ("note", "n", "N ${a}")]),
+        "select": _hdr_survey_wb([A, ("select_one l", "q", "Q")]),
+        "nested": _hdr_survey_wb([A, ("begin group", "g", "G"), ("begin repeat", "r", "R"), ("text", "q", "Q ${a}"),
+                                  ("end repeat", None, None), ("end group", None, None)]),
+        "translated": _hdr_lang(_hdr_survey_wb([A, ("select_one l", "q", "Q ${a}")]), ["survey", "choices"]),
+        "translated-text": _hdr_lang(_hdr_survey_wb([A, ("note", "n", "N ${a}")]), ["survey"]),
+    }
+    if thorough:
+        forms["osm"] = _hdr_survey_wb([A, ("osm o", "q", "Q")])
+        forms["entities"] = _hdr_survey_wb([A], extra={"entities": (["list_name", "label"], [["e", "${a}"]])})
+    for kind, wb in forms.items():
+        wb = wb.copy()
+        wb["settings"] = (["form_id"], [["f"]])
+        frames["settings"].append((kind, wb, [0]))
+
+    frames["entities"].append(("create", _hdr_survey_wb([A], extra={"entities": (["list_name", "label"], [["e", "${a}"]])}), [0]))
+    frames["entities"].append(("update", _hdr_survey_wb([A], extra={"entities": (["list_name", "entity_id"], [["e", "${a}"]])}), [0]))
+    wb = _hdr_survey_wb([A], extra={"entities": (["list_name", "label"], [["e", "${a}"]])})
+    wb["survey"] = (["type", "name", "label", "save_to"], [["text", "a", "A", "p1"], ["begin group", "g", "G", None],
+                                                           ["integer", "b", "B", "p2"], ["end group", None, None, None]])
+    frames["entities"].append(("save_to", wb, [0]))
+
+    wb = _hdr_survey_wb([A], extra={"external_choices": HDR_EXT})
+    wb["survey"] = (["type", "name", "label", "choice_filter"], [["text", "a", "A", None], ["select_one_external ext", "q", "Q", "state=${a}"]])
+    frames["external_choices"].append(("external", wb, [0, 1]))
+    wb2 = wb.copy()
+    wb2["survey"][1].append(["select_one l", "p", "P", None])
+    wb2["choices"] = (list(HDR_CHOICES[0]), [list(r) for r in HDR_CHOICES[1]])
+    frames["external_choices"].append(("external+choices", wb2, [0, 1]))
+
+    frames["osm"].append(("osm", _hdr_survey_wb([A, ("osm o", "q", "Q")]), [0, 1]))
+    frames["osm"].append(("osm-in-repeat", _hdr_survey_wb([A, ("begin repeat", "r", "R"), ("osm o", "q", "Q"), ("end repeat", None, None)]), [0, 1]))
+    if thorough:
+        frames["osm"].append(("osm-first-row-only", _hdr_survey_wb([A, ("osm o", "q", "Q")]), [0]))
+        frames["osm"].append(("osm+select", _hdr_survey_wb([A, ("osm o", "q", "Q"), ("select_one l", "s", "S")]), [0, 1]))
+    return frames
+
+
+def _hdr_apply(wb, sheet, targets, headers, cell, replace=None, front=False):
+    """`wb` with the headers added to `sheet` (cell on the target rows), or put in place of the base header `replace`."""
+    out = wb.copy()
+    h, rows = out[sheet]
+    if replace is not None:
+        i = h.index(replace)
+        if len(headers) == 1:
+            h[i] = headers[0]
+        else:       # two or more language columns in place of one: the base cells go to the first of them
+            h[i: i + 1] = headers
+            for r in rows:
+                r[i + 1: i + 1] = [None] * (len(headers) - 1)
+        return out
+    for r in rows:
+        while len(r) < len(h):
+            r.append(None)
+    for k, hd in enumerate(headers):
+        at = k if front else len(h)
+        h.insert(at, hd)
+        for n, r in enumerate(rows):
+            r.insert(at, cell if n in targets else None)
+    return out
+
+
+def _hdr_pick(fs, start, k):
+    """k of the frames, spread over the list, beginning at a rotating position (all of them when k >= len)."""
+    order = sorted(range(len(fs)), key=lambda i: (((i - start) % len(fs)) * 7) % len(fs))
+    return [fs[i] for i in order[:k]]
+
+
+def header_cases(tier: str, seed: int) -> list[Case]:
+    thorough = tier == "thorough"
+    out, seen = [], set()
+    frames = _hdr_frames(thorough)
+
+    def add(tag, wb):
+        md = corpus.wb_to_md(wb)
+        if md in seen:
+            return
+        seen.add(md)
+        out.append(Case(f"C17-header:{tag}", md=md, origin="C17", tags={"header"}))
+
+    for sheet, fs in frames.items():                       # the forms the headers are put on are valid
+        for kind, wb, _ in fs:
+            c = Case(f"C17-header-base:{sheet}|{kind}", md=corpus.wb_to_md(wb), origin="C17", tags={"base", "header"})
+            c.expect = {"kind": "base", "accept": True}
+            out.append(c)
+
+    py_names = [n for n in HDR_PY_NAMES]
+    py_names += [n for n in _hdr_introspected() if n not in py_names]
+    for sheet, fs in frames.items():
+        single = [f for f in fs if f[0] != "all"]
+        vocab = [(c, "column") for c in HDR_COLUMNS[sheet]] + [(c, "python") for c in py_names if c not in HDR_COLUMNS[sheet]]
+        for ci, (col, origin) in enumerate(vocab):
+            shapes = _hdr_shapes(col, thorough, wide=origin == "column")
+            core = {tuple(hs) for _, hs in _hdr_shapes(col, False)}          # the shapes of the quick tier
+            if origin == "python" and not thorough:
+                keep = ("plain", "+1x::en", "+1x:en") if sheet in ("survey", "settings") else ("plain", ("+1x::en", "+1x:en")[ci % 2])
+                shapes = [s for s in shapes if s[0] in keep]
+            for si, (stag, headers) in enumerate(shapes):
+                # thorough: a documented column in the shapes of the quick tier, and a Python-level name alone, go on every
+                # frame; a Python-level name in the shapes of the quick tier on eight frames; the rest on two or three.
+                # quick: a Python-level name alone goes on every kind of row of the survey and on every kind of form for
+                # the settings (two kinds for the choices, one for the other list sheets); every other (name, shape) goes
+                # on one frame, rotating so that names and shapes meet every frame.
+                is_core = tuple(headers) in core
+                if thorough and origin == "column":
+                    use = _hdr_pick(fs, ci + si, len(fs) if is_core else 3)
+                elif thorough:
+                    use = _hdr_pick(fs, ci + si, len(fs) if stag == "plain" else 8 if is_core else 2)
+                elif origin == "python" and stag == "plain":
+                    use = single if sheet in ("survey", "settings") else [fs[(ci + k) % len(fs)] for k in range(2 if sheet == "choices" else 1)]
+                else:
+                    use = [fs[(ci + si) % len(fs)]]
+                with_empty_cell = thorough or stag in ("plain", "empty-part")
+                for kind, wb, targets in use:
+                    present = wb[sheet][0]
+                    # a header that is already a column of this form cannot be added twice: only the others are added
+                    extra = [h for h in headers if h not in present]
+                    tag = f"{sheet}|{kind}|{'+'.join(headers)}"
+                    if extra:
+                        add(f"{tag}|extra", _hdr_apply(wb, sheet, targets, extra, HDR_TEXT))
+                        if thorough and kind in ("all", fs[0][0]) and is_core and (origin == "column" or stag == "plain"):
+                            add(f"{tag}|extra-front", _hdr_apply(wb, sheet, targets, extra, HDR_TEXT, front=True))
+                            add(f"{tag}|extra-yes", _hdr_apply(wb, sheet, targets, extra, "yes"))
+                    if col in present and extra == headers:
+                        add(f"{tag}|replaces-{col}", _hdr_apply(wb, sheet, targets, headers, None, replace=col))
+                # once with an empty cell: the header is there, no row has a value for it
+                kind, wb, targets = fs[0]
+                extra = [h for h in headers if h not in wb[sheet][0]]
+                if extra and with_empty_cell:
+                    add(f"{sheet}|{kind}|{'+'.join(headers)}|empty-cell", _hdr_apply(wb, sheet, [], extra, None))
+    return out
+
+
 def cases(tier: str, seed: int) -> list[Case]:
     thorough = tier == "thorough"
-    return mutation_cases(thorough) + vocabulary_cases(thorough) + context_cases(tier, seed) + fuzz_cases(tier, seed)
+    # header cases first: the runner prints one line per key in the order found, and tools/run_e2e_seeded.sh shows the last
+    # 15 lines only; the keys of clauses R and L (the ones a seeded change adds) then stay at the end, in view.
+    return (header_cases(tier, seed) + mutation_cases(thorough) + vocabulary_cases(thorough) + context_cases(tier, seed)
+            + fuzz_cases(tier, seed))
 
 
 # ----------------------------------------------------------------------------- check
@@ -858,13 +1208,40 @@ KNOWN_DEFECTS = {
         "xml-external / csv-external row inside a repeat; fix /verif/fixes/external-instance-in-repeat",
     "C17:internal-error:ExpatError:utils.py:node":
         "U+000B (any character XML 1.0 cannot carry) in a label that has a ${reference}; finding /verif/fixes/c17-control-char-with-reference",
+    # -- header family.  One root cause for all but the last: a header equal to an internal field / constructor argument
+    # name reaches the constructors as a keyword (finding /verif/fixes/c17-header-internal-field-name; reproductions
+    # in FINDINGS_C17.md).  Header and sheet that reach each site:
+    "C17:internal-error:TypeError:question.py:xml_action": "survey `action` (any question)",
+    "C17:internal-error:ValueError:question.py:__init__": "survey `action` on background-audio",
+    "C17:internal-error:TypeError:question.py:<genexpr>": "survey `children` / `tags` on osm; osm sheet `self`",
+    "C17:internal-error:AttributeError:survey_element.py:__setattr__": "survey `fields` on a select / background-audio; choices `fields`",
+    "C17:internal-error:TypeError:builder.py:_create_question_from_dict": "survey `question_type_dictionary` / `self` on a question",
+    "C17:internal-error:TypeError:builder.py:_create_section_from_dict": "survey `self` on a group / repeat; settings `self`",
+    "C17:internal-error:TypeError:builder.py:_create_loop_from_dict": "survey `self` on a loop (thorough)",
+    "C17:internal-error:TypeError:builder.py:create_survey_element_from_dict": "survey `self` on xml-external (thorough)",
+    "C17:internal-error:TypeError:question.py:get_options": "choices `self`",
+    "C17:internal-error:AttributeError:xls2json.py:workbook_to_json": "settings `children`",
+    "C17:internal-error:AttributeError:survey.py:get_pulldata_functions": "settings `bind`",
+    "C17:internal-error:AttributeError:survey_element.py:__init__": "settings `control`",
+    "C17:internal-error:ValueError:section.py:xml_instance": "settings `instance`",
+    "C17:internal-error:TypeError:survey.py:__init__": "settings `fields`",
+    "C17:internal-error:AttributeError:survey.py:_add_empty_translations": "settings `_translations`",
+    "C17:internal-error:TypeError:survey.py:_setup_translations": "settings `_translations`, survey labels translated",
+    "C17:internal-error:TypeError:survey.py:_add_to_nested_dict": "settings `_translations`, choice labels translated",
+    # a different root cause (no finding directory yet; FINDINGS_C17.md): any header of three parts, the documented
+    # image::en / media::image::en / constraint_message::en included, on a question inside `begin loop`
+    "C17:internal-error:TypeError:builder.py:_name_and_label_substitutions":
+        "question inside begin loop with a cell under a three-part header: dict %= dict",
     "C17:no-row:duplicate-name": "finding /verif/fixes/c17-no-row-duplicate-name",
     "C17:no-row:unknown-ref": "finding /verif/fixes/c17-no-row-unknown-ref",
     "C17:no-row:ambiguous-ref": "finding /verif/fixes/c17-no-row-ambiguous-ref",
     "C17:no-row:unknown-type": "finding /verif/fixes/c17-no-row-unknown-type",
     "C17:no-row:bad-parameters": "finding /verif/fixes/c17-no-row-bad-parameters",
 }
-# Crashes seen while writing the families but outside the property's domain (not generated, not demanded): headers that
-# override generated attributes (bind::nodeset, body::nodeset on a repeat), three-level headers on a plain column
-# (label::en::x), the internal type name `entity` as a survey type, and dict input with whitespace-only or int cells
-# (no spreadsheet reader produces those).  Not an error: a `note` without a name (one is generated), type `end` (metadata).
+# Crashes seen while writing the families but outside the property's domain (not generated, not demanded): the internal
+# type name `entity` as a survey type, and dict input with whitespace-only or int cells (no spreadsheet reader produces
+# those).  Not an error: a `note` without a name (one is generated), type `end` (metadata).
+# Headers that override generated attributes (bind::nodeset, body::nodeset on a repeat) and headers with more or fewer
+# parts than the column takes (label::en::x, name::en, bind) used to be listed here as "not generated": they crashed until
+# /verif/fixes/c17-header-part-count, c17-generated-nodeset-attribute, c17-choices-column-delimiter and
+# c17-osm-tag-without-name; header_cases() now generates all of them.
